@@ -52,6 +52,10 @@ Felts(p, n) == CASE p[1] = "zero" -> [i \in 1 .. n |-> Felt0] [] p[1] = "count" 
                  [] p[1] = "big" -> [i \in 1 .. n |-> <<65536 - i, 65535, 65534, 65535>>]        \* below the modulus (limb 3 < 65535 or limbs 1, 2 zero)
                  [] p[1] = "rand" -> LET r == Rnd(p[2], 4 * n) IN [i \in 1 .. n |-> <<r[4 * i - 3], r[4 * i - 2], r[4 * i - 1], r[4 * i] % 65535>>]
 NativeWords == IF LEVEL = 1 THEN {1, 2, 3, 4} ELSE 1 .. 12
+EvenWords == IF LEVEL = 1 THEN {0, 2, 4} ELSE {0, 2, 4, 6, 8, 10}
+\* absorbing an even number of words into a given state (native::hash_memory_even): no padding, no capacity change
+AbsorbRecipe(init, elems) == [init |-> init, blocks |-> [k \in 1 .. (Len(elems) \div 8) |-> SubSeq(elems, 8 * k - 7, 8 * k)]]
+InitPat(p) == IF p[1] = "rand" THEN <<"rand", p[2] + 1>> ELSE IF p[1] = "zero" THEN <<"count", 0>> ELSE <<"rand", 5>>
 
 Cases ==
   {[mod |-> "sha256", proc |-> "hash_2to1", pat |-> p] : p \in Pats(16)}
@@ -63,6 +67,8 @@ Cases ==
   \cup {[mod |-> "keccak256", proc |-> "to_bit_interleaved", pat |-> p] : p \in Pats(2)}
   \cup {[mod |-> "keccak256", proc |-> "from_bit_interleaved", pat |-> p] : p \in Pats(2)}
   \cup {[mod |-> "native", proc |-> "hash_memory", pat |-> <<p[1], p[2], n>>] : p \in FeltPats, n \in NativeWords}
+  \cup {[mod |-> "native", proc |-> "hash_memory_even", pat |-> <<p[1], p[2], n>>] : p \in FeltPats, n \in EvenWords}
+  \cup {[mod |-> "native", proc |-> "state_to_digest", pat |-> <<p[1], p[2], 3>>] : p \in FeltPats}
 
 Expect(c) ==
   CASE c.mod = "sha256" /\ c.proc = "hash_2to1" -> LET w == Words(c.pat, 16) IN [inw |-> w, out |-> Sha256(BytesBE(w))]
@@ -75,7 +81,13 @@ Expect(c) ==
          LET w == Words(c.pat, 2)  r == Interleave(LanesOfStack(w)[1]) IN [inw |-> w, out |-> <<r.even, r.odd>>]
     [] c.mod = "keccak256" /\ c.proc = "from_bit_interleaved" ->
          LET w == Words(c.pat, 2)  r == Interleave(LanesOfStack(w)[1]) IN [inw |-> <<r.even, r.odd>>, out |-> w]
-    [] c.mod = "native" -> LET e == Felts(c.pat, 4 * c.pat[3]) IN [inw |-> <<>>, elems |-> e, recipe |-> RpoRecipe(e)]
+    [] c.mod = "native" /\ c.proc = "hash_memory" -> LET e == Felts(c.pat, 4 * c.pat[3]) IN [inw |-> <<>>, elems |-> e, recipe |-> RpoRecipe(e)]
+    \* state (12 elements, capacity first) given on the stack as [C, B, A] = the state in reverse order
+    [] c.mod = "native" /\ c.proc = "hash_memory_even" ->
+         LET e == Felts(c.pat, 4 * c.pat[3])  st == Felts(InitPat(c.pat), 12) IN [inw |-> <<>>, elems |-> e, state |-> st, recipe |-> AbsorbRecipe(st, e)]
+    \* [C, B, A, ...] -> [B, ...]: the digest is the first rate word, state[4 .. 7]
+    [] c.mod = "native" /\ c.proc = "state_to_digest" ->
+         LET st == Felts(c.pat, 12) IN [inw |-> <<>>, state |-> st, digest |-> SubSeq(st, 5, 8)]
 
 Id(c) == LET RECURSIVE H(_)
              H(i) == IF i > Len(c.pat) THEN 0 ELSE (IF c.pat[i] \in Nat THEN c.pat[i] ELSE 17) + 31 * H(i + 1)
